@@ -1,6 +1,6 @@
 """C05 — messages reach only the addressed applications; foreign traffic is ignored."""
 import random
-from .. import common as C, corr21, genca, pyexec, sim, net21
+from .. import common as C, corr21, corr22, genca, pyexec, sim, net21
 from ..gen21 import can_id, TP_CM, TP_DT, rand_payload
 from . import c12
 
@@ -13,7 +13,7 @@ ASSUMPTIONS = ["J1939-22: the acceptance logic is exercised on the real code by 
 
 
 def correspondence(ctx):
-    r = corr21.run(ctx, ctx.n(40, 1000), ctx.n(120, 4000), 5)
+    r = corr22.merge(corr21.run(ctx, ctx.n(40, 1000), ctx.n(120, 4000), 5), corr22.run(ctx, ctx.n(10, 300), ctx.n(60, 2500), 5))
     # listener flags (all 16 combinations) and the ECU dispatch with int / predicate / unfiltered registrations
     lines = [f"listener {a} {b} {c} {d}" for a in (0, 1) for b in (0, 1) for c in (0, 1) for d in (0, 1)]
     rng = random.Random(ctx.seed * 31 + 5)
